@@ -89,6 +89,10 @@ type Exec struct {
 	callerSeqs map[string]string
 	topLets    map[string]SV
 	steps      int
+	gasMeters  map[int]GasV
+	dynCtxArgs []ssa.Value
+	nextGas    int
+	epochs     int
 }
 
 type ghostInfo struct {
@@ -347,14 +351,14 @@ func (x *Exec) load(st *State, p Value, ty types.Type) Value {
 					continue
 				}
 				tv := v.(TV)
-				v = TV{T: simpSelect(app("seq.arr", tv.T), pe.Index), Ty: elemType(tv.Ty)}
+				v = TV{T: simpSelect(app("gseq.arr", tv.T), pe.Index), Ty: elemType(tv.Ty)}
 			} else {
 				v = x.fieldOf(st, v, pe.Field)
 			}
 		}
 		return v
 	case ElemPtr:
-		return TV{T: simpSelect(app("seq.arr", q.Seq.T), q.Index), Ty: elemType(q.Seq.Ty)}
+		return TV{T: simpSelect(app("gseq.arr", q.Seq.T), q.Index), Ty: elemType(q.Seq.Ty)}
 	case BytePtr:
 		x.declBytesOps()
 		var bt string
@@ -440,7 +444,7 @@ func (x *Exec) updPath(st *State, base Value, path []PathElem, v Value) Value {
 	switch b := base.(type) {
 	case TV:
 		if pe.IsIndex {
-			el := TV{T: simpSelect(app("seq.arr", b.T), pe.Index), Ty: elemType(b.Ty)}
+			el := TV{T: simpSelect(app("gseq.arr", b.T), pe.Index), Ty: elemType(b.Ty)}
 			nv := x.updPath(st, el, path[1:], v)
 			return TV{T: app("mkseq", app("store", seqArr(b.T), pe.Index, x.asTV(st, nv).T), seqLen(b.T)), Ty: b.Ty}
 		}
@@ -481,7 +485,7 @@ func seqArr(t string) string {
 			return p[1]
 		}
 	}
-	return app("seq.arr", t)
+	return app("gseq.arr", t)
 }
 func seqLen(t string) string {
 	if strings.HasPrefix(t, "(mkseq ") {
@@ -490,12 +494,12 @@ func seqLen(t string) string {
 			return p[2]
 		}
 	}
-	return app("seq.len", t)
+	return app("gseq.len", t)
 }
 
 // simpSelect simplifies (select arr idx) over syntactic store chains with numeral indices.
 func simpSelect(arr, idx string) string {
-	if strings.HasPrefix(arr, "(seq.arr (mkseq ") {
+	if strings.HasPrefix(arr, "(gseq.arr (mkseq ") {
 		arr = seqArr(arr[9 : len(arr)-1])
 	}
 	for isNumeral(idx) && strings.HasPrefix(arr, "(store ") {
@@ -942,7 +946,7 @@ func (x *Exec) step(st *State, fr *Frame, in ssa.Instruction) {
 			fr.env[ins] = TV{T: app("bat", tv.T, idx), Ty: ins.Type()}
 			x.declBytesOps()
 		} else {
-			fr.env[ins] = TV{T: simpSelect(app("seq.arr", tv.T), idx), Ty: ins.Type()}
+			fr.env[ins] = TV{T: simpSelect(app("gseq.arr", tv.T), idx), Ty: ins.Type()}
 		}
 	case *ssa.Extract:
 		t := x.val(fr, st, ins.Tuple)
@@ -1244,8 +1248,10 @@ func (x *Exec) equal(st *State, a, b Value, ty types.Type) string {
 			case strings.HasPrefix(s, "(Array"):
 				return "false"
 			}
-		case PtrV, ObjV, CloV, FnV, CtxV, SliceRef, MapRef, BoundV:
+		case PtrV, ObjV, CloV, FnV, CtxV, SliceRef, MapRef, BoundV, GasV, ByteView:
 			return "false"
+		case NilFnV:
+			return "true"
 		case nil:
 			return "true"
 		}
